@@ -81,21 +81,24 @@ def mc_u1(pid, tier):
 
 # property -> list of (family, share of the walk budget)
 FAMILIES = {
-    "C04": [("mixed", 0.6), ("session", 0.4)], "C05": [("mixed", 0.6), ("retry", 0.4)], "C06": [("mixed", 0.6), ("session", 0.4)],
-    "C07": [("subs", 0.6), ("mixed", 0.4)], "C08": [("retry", 0.6), ("mixed", 0.4)], "C09": [("mixed", 0.5), ("session", 0.5)],
+    "C04": [("mixed", 0.5), ("session", 0.3), ("enum:handshake", 0)], "C05": [("mixed", 0.6), ("retry", 0.4)], "C06": [("mixed", 0.6), ("session", 0.4)],
+    "C07": [("subs", 0.6), ("mixed", 0.4)], "C08": [("retry", 0.6), ("mixed", 0.4)], "C09": [("qos2", 0.6), ("mixed", 0.2), ("session", 0.2)],
     "C10": [("mixed", 0.6), ("session", 0.4)], "C11": [("session", 0.7), ("mixed", 0.3)], "C12": [("session", 0.7), ("mixed", 0.3)],
-    "C13": [("mixed", 0.3), ("session", 0.3), ("retry", 0.2), ("keepalive", 0.2)], "C14": [("mixed", 0.7), ("session", 0.3)],
-    "C15": [("keepalive", 0.7), ("mixed", 0.3)], "C16": [("mixed", 0.5), ("session", 0.5)], "C17": [("wrap", 0.7), ("mixed", 0.3)],
-    "C18": [("mixed", 0.5), ("session", 0.5)], "C20": [("mixed", 1.0)],
+    "C13": [("mixed", 0.3), ("session", 0.3), ("retry", 0.2), ("keepalive", 0.2)], "C14": [("mixed", 0.7), ("session", 0.3), ("enum:handshake", 0)],
+    "C15": [("keepalive", 0.7), ("mixed", 0.3)], "C16": [("enum:inject", 0), ("enum:handshake", 0), ("mixed", 0.4), ("session", 0.3)], "C17": [("wrap", 0.7), ("mixed", 0.3)],
+    "C18": [("mixed", 0.5), ("session", 0.5), ("enum:handshake", 0)], "C20": [("enum:args", 0), ("mixed", 0.6)],
 }
 
 
-def gen_families(pid, w, n, seed):
+def gen_families(pid, w, n, seed, tier):
     """runs the walk driver once per family; returns the list of family directories"""
     dirs = []
     for k, (fam, share) in enumerate(FAMILIES.get(pid, [("mixed", 1.0)])):
-        d = os.path.join(w, fam)
-        run_py([os.path.join(VERIF, "harness", "walk.py"), d, str(max(10, int(n * share))), str(seed * 101 + k), fam])
+        d = os.path.join(w, fam.replace(":", "_"))
+        if fam.startswith("enum:"):
+            run_py([os.path.join(VERIF, "harness", "enum_driver.py"), d, fam[5:], tier, str(seed * 101 + k)])
+        else:
+            run_py([os.path.join(VERIF, "harness", "walk.py"), d, str(max(10, int(n * share))), str(seed * 101 + k), fam])
         dirs.append((fam, d))
     return dirs
 
@@ -245,7 +248,7 @@ def main(pid, tier, seed, replay=None):
         trace, index = os.path.join(w, "all.ndjson"), os.path.join(w, "all.idx.json")
         idx = json.load(open(index)); src = [["chunk", "both", k + 1] for k in range(len(idx))]
     else:
-        dirs = gen_families(pid, w, WALKS[tier], seed)
+        dirs = gen_families(pid, w, WALKS[tier], seed, tier)
         trace, index, idx, src = combine(w, dirs)
     acc, rej, rmon = run_mon(pid, trace, index, "mon-" + pid)
     if len(acc) + len(rej) != len(idx):
